@@ -15,7 +15,7 @@ use std::rc::Rc;
 
 const SIGMA: [&str; 14] = ["a", " ", "\"", "#", "\\", "$", "{", "}", "%", "\n", "\r", "=", "\t", "é"];
 const SPECIAL: [&str; 8] = ["${v}", "%{v}", "\\${v}", "${w}", "a b", "\"a b\"", "a  b", "x=y"];
-const WRAPPERS: [&str; 8] = ["direct", "if", "elseif", "while", "not", "alias-stored", "alias-passed", "function"];
+const WRAPPERS: [&str; 10] = ["direct", "if", "elseif", "while", "not", "alias-stored", "alias-passed", "function", "alias-of-not", "alias-of-not-stored"];
 
 struct Rig {
     ctx: Context,
@@ -53,6 +53,14 @@ impl Rig {
                 }
             }
             6 => format!("alias al cap\nal {}", args),
+            8 => format!("alias al not cap\nr = al {}", args),
+            9 => {
+                if pos == 0 {
+                    "alias al not cap ${v}\nr = al z".to_string()
+                } else {
+                    "alias al not cap z ${v}\nr = al".to_string()
+                }
+            }
             _ => format!("fn p\ncap ${{1}} ${{2}}\nreturn true\nend\nif p {}\nend", args),
         }
     }
@@ -152,8 +160,8 @@ fn class_of(v: &str) -> &'static str {
 
 pub fn bounds(tier: Tier) -> Value {
     match tier {
-        Tier::Quick => json!({"value_len": 3, "alphabet": 14, "special_values": 8, "positions": 2, "wrappers": 8}),
-        Tier::Thorough => json!({"value_len": 4, "alphabet": 14, "special_values": 8, "positions": 2, "wrappers": 8}),
+        Tier::Quick => json!({"value_len": 3, "alphabet": 14, "special_values": 8, "positions": 2, "wrappers": 10}),
+        Tier::Thorough => json!({"value_len": 4, "alphabet": 14, "special_values": 8, "positions": 2, "wrappers": 10}),
     }
 }
 
@@ -231,7 +239,7 @@ pub fn crash_sig(case: &Value, kind: &str) -> String {
     format!("{}:{}:{}", kind, case["wrapper"].as_str().unwrap_or("?"), class_of(case["value"].as_str().unwrap_or("")))
 }
 
-pub const RULE: &str = "values: every string up to the length bound over {a SP \" # \\\\ $ { } % LF CR = TAB e-acute} plus 8 special values (${v}, %{v}, \\\\${v}, ${w}, 'a b', '\"a b\"', 'a  b', x=y), held in a variable and written as ${v} in first or second argument position of a capture command invoked directly, as the condition of if / elseif / while, under not, through an alias that stores the value, through an alias that is passed the value, and through a user function used as predicate. Oracle: the arguments received through the wrapper equal those received by the direct call. A failing case is classified by whether the received arguments equal what re-serialising the values into a line and parsing/binding it again yields (the recorded defect, one signature per input class) or not (a new violation). Non-trivial: the value contains a character other than plain letters";
+pub const RULE: &str = "values: every string up to the length bound over {a SP \" # \\\\ $ { } % LF CR = TAB e-acute} plus 8 special values (${v}, %{v}, \\\\${v}, ${w}, 'a b', '\"a b\"', 'a  b', x=y), held in a variable and written as ${v} in first or second argument position of a capture command invoked directly, as the condition of if / elseif / while, under not, through an alias that stores the value, through an alias that is passed the value, through a user function used as predicate, and through aliases whose target is `not <predicate>` (value passed or stored). Oracle: the arguments received through the wrapper equal those received by the direct call. A failing case is classified by whether the received arguments equal what re-serialising the values into a line and parsing/binding it again yields (the recorded defect, one signature per input class) or not (a new violation). Non-trivial: the value contains a character other than plain letters";
 pub const ASSUMPTIONS: &[&str] = &["the capture command returns true on its first call and false afterwards (so a while loop ends)", "classification of known findings uses the real parser and binder on a transcription of the line building in utils/eval.rs"];
 pub const EXHAUSTIVE: bool = true;
 pub const WALL_CAP_S: (u64, u64) = (55, 1500);
